@@ -164,10 +164,60 @@ class C03(PropCheck):
             impl = dict(ok=False, error='%s: %s' % (type(e).__name__, str(e)[:200]))
             impl_coq = 'ImplErr'
         coq_outputs = clist([cstr(x) for x in (all_names if outputs is None else outputs)])
-        return dict(impl=impl, snet=snet, impl_coq=impl_coq, coq_outputs=coq_outputs, declared=[list(e) for e in declared],
+        hist = []
+        if impl.get('ok') and not case.get('malformed'):
+            try:
+                hist = self._history(case, m, rec, all_names if outputs is None else outputs)
+            except Exception as e:          # the single run above finished, so must every batch of the history
+                hist = ['history raised %s: %s' % (type(e).__name__, str(e)[:160])]
+        return dict(hist=hist, impl=impl, snet=snet, impl_coq=impl_coq, coq_outputs=coq_outputs, declared=[list(e) for e in declared],
                     net_edges=[list(e) for e in net_edges])
 
+    def _history(self, case, m, rec, outputs):
+        """wave 4: several batches on ONE BatchHandler / ComputationContext (as every sampler runs them), each with its own
+        set of supplied (overridden) nodes: what a batch returns and which operations it invokes must be those of the same
+        batch (same index, same supplied values) on a fresh context -- the meaning of a batch is a function of the graph and the
+        supplied values, not of the batches computed before it (the per-context execution-order cache must not leak)."""
+        import random
+        from elfi.client import BatchHandler
+        from elfi.model.elfi_model import ComputationContext
+        r = random.Random(case['seed'])
+        bh = BatchHandler(m, ComputationContext(case['batch_size'], seed=case['seed']), output_names=list(outputs))
+        cands = sorted(k for k in bh.compiled_net.nodes if 'operation' in bh.compiled_net.nodes[k] and not k.startswith('_'))
+        if not cands:
+            return []
+        sets = [{}]
+        for _ in range(r.randint(2, 4)):
+            sets.append({k: 7000 + i for i, k in enumerate(cands) if r.random() < 0.4})
+        sets.append({})
+        self.bump('history batches=%d' % len(sets))
+        self.bump('history distinct supplied sets=%d' % len(set(frozenset(s) for s in sets)))
+        fails = []
+        for i, sup in enumerate(sets):
+            rec.reset()
+            bh.submit(batch=dict(sup))
+            got, idx = bh.wait_next()
+            got_log = list(rec.log)
+            fresh = BatchHandler(m, ComputationContext(case['batch_size'], seed=case['seed']), output_names=list(outputs))
+            fresh._next_batch_index = i
+            rec.reset()
+            fresh.submit(batch=dict(sup))
+            ref, idx2 = fresh.wait_next()
+            ref_log = list(rec.log)
+            g = sorted((k, json.dumps(jvalue(v), sort_keys=True, default=str)) for k, v in got.items())
+            f = sorted((k, json.dumps(jvalue(v), sort_keys=True, default=str)) for k, v in ref.items())
+            if idx != idx2 or g != f:
+                fails.append('batch %d of the history (supplied %s after %s): outputs differ from the same batch on a fresh context'
+                             % (i, sorted(sup), [sorted(x) for x in sets[:i]]))
+            elif got_log != ref_log:
+                fails.append('batch %d of the history (supplied %s after %s): operations invoked %s, on a fresh context %s'
+                             % (i, sorted(sup), [sorted(x) for x in sets[:i]], got_log, ref_log))
+        rec.reset()
+        return fails
+
     def py_check(self, case, out):
+        if out.get('hist'):
+            return [('history_independent', out['hist'][0])]
         if out['impl'].get('bad'):
             return [('runtime_kwargs', 'a flagged keyword argument had the wrong value: %r' % out['impl']['bad'])]
         return []
